@@ -19,6 +19,7 @@ def export_paths(repo):
     c = repo.__dict__.setdefault('_c16', {})
     if 'export' not in c:
         mod, fn = repo.find(f'{BR}::OTelLineageExporter.export')
+        q.expect_locals(mod, fn, ['facet', 'name', 'bucket_counts', 'explicit_bounds', 'point', 'dp', 'metrics'])
         ev = Evaluator(repo, mod, unroll_for=1)
         ev.scope_node = fn
         c['export'] = (mod, fn, ev.run(fn.body))
@@ -58,6 +59,7 @@ def r1(rr, repo):
 @rule('C16.R2', 'no default-allow on an empty list: _is_allowed answers True only through membership, fnmatch success or an explicit `is None` test')
 def r2(rr, repo):
     mod, fn = repo.find(f'{BR}::OTelLineageExporter._is_allowed')
+    q.expect_locals(mod, fn, ['self'])
     ev = Evaluator(repo, mod, unroll_for=1)
     paths = ev.run(fn.body)
     rr.paths += len(paths)
